@@ -46,7 +46,10 @@ def main():
         failed = sorted(set(re.findall(r"test (\S+) \.\.\. FAILED", out)))
         conf["existing_tests_cmd"] = tcmd
         conf["existing_tests_failed"] = failed
-        conf["existing_tests_ok"] = ("test result: ok" in out) and all(f.endswith("asymmetric_diamond_projection_pattern") for f in failed) and "error" not in out.replace("0 errors", "")
+        # the only tolerated failure is the test BASELINE.json lists as flaky on the unchanged code
+        compile_error = bool(re.search(r"error\[|could not compile", out))
+        conf["existing_tests_ok"] = ("test result: ok" in out) and not compile_error and all(f.endswith("asymmetric_diamond_projection_pattern") for f in failed)
+        conf["note"] = "asymmetric_diamond_projection_pattern is listed as flaky in /root/.vp/BASELINE.json (fails on the unchanged code too) and is not part of the 152 stable tests"
         conf["existing_tests_summary"] = out[-1500:]
         # (3) demo with the patch
         rc1, out1 = sh(demo, cwd=wt, env=env, timeout=3600)
